@@ -350,7 +350,8 @@ def run(tier):
         chk.obligation(not judged)
         for pr in judged[:1]:
             chk.violation("no-answer", f"no answer within {RETRY_LIMIT} s under {' '.join(pr['vector']) or 'default'} on an instance the "
-                                       f"reference solver decides at once ({r['logic']})", {"script": pr["script"], "options": pr["vector"]})
+                                       f"reference solver decides at once ({r['logic']})", {"script": pr["script"], "options": pr["vector"]},
+                          match_key="picky-no-answer" if "(set-option :picky true)" in pr["script"] else None)
     chk.assumptions = ["termination of the single steps (propagation, conflict analysis, Simplex pivoting, congruence closure, lemma generation) "
                        "and of the lookahead engines is not proved; it is searched for with a time limit",
                        "that the restart limits of the solver reach 3^n is not proved (floating-point policy)",
